@@ -78,7 +78,7 @@ func MapIter[K comparable, V any](m map[K]V) *MapIt[K, V] {
 		it.keys = append(it.keys, k)
 	}
 	sort.Slice(it.keys, func(a, b int) bool { return fmt.Sprint(it.keys[a]) < fmt.Sprint(it.keys[b]) })
-	if s := Cur; s != nil && len(it.keys) >= 2 {
+	if s := Cur; s != nil && len(it.keys) >= 2 && inHook == 0 {
 		t := s.me()
 		t.nsite++
 		id := fmt.Sprintf("%s#%d", t.id, t.nsite)
@@ -87,6 +87,9 @@ func MapIter[K comparable, V any](m map[K]V) *MapIt[K, V] {
 		v, ok := ForceOrder[id]
 		if !ok && ForceAll >= 0 {
 			v, ok = ForceAll%nv, true
+		}
+		if os.Getenv("VS_DEBUG_PREFIX") != "" && t.id == "0" {
+			fmt.Fprintf(os.Stderr, "MAPSITE %s keys=%v force=%v/%v\n", id, it.keys, v, ok)
 		}
 		if ok && v > 0 && v < nv {
 			p := permute(len(it.keys), v)
